@@ -14,7 +14,7 @@ from ..util import (has_call, find_calls, assigned_value, const_str, unparse, kw
 from .. import mutate as M
 from . import c03
 
-TECHNIQUE = 'static analysis: CFG path rules with exception edges (every exit of a worker/loader posts its sentinel; clean-up on all paths), callee no-raise summaries, role-resolved queue protocol, position of the per-child limiter'
+TECHNIQUE = 'static analysis: CFG path rules with exception edges (every exit of a worker/loader posts its sentinel; clean-up on all paths), callee no-raise summaries, role-resolved queue protocol, position of the per-child limiter, report-channel rules (receive-before-join, untimed wait on {pipe, sentinel}, pickle round-trip proof, handler sets of worker and loader lines), atomic wait-key source, daemon flag'
 
 EXPLANATION = ("Protocol rules over Multiprocessor.filter, its two completion callbacks, QueueSource/QueueSink and "
                "ProcessLine/ThreadLine: every value written to a poison-terminated queue is either the pill at a "
@@ -496,6 +496,14 @@ def r8_report_channel(ctx):
     ok = "BaseException" in caught or {"Exception", "KeyboardInterrupt", "SystemExit", "GeneratorExit"} <= set(caught)
     ctx.ob("C08.R8", LNS, "ProcessLine.run", tries[0] if tries else run_, "SystemExit / GeneratorExit raised by the filter are reported like any other exception", ok,
            detail={"caught": caught}, stmt="all BaseExceptions reported")
+    # the loader runs as a ThreadLine over the caller's items: what the items raise -- a SystemExit / CobaExit included -- has to reach loader_finished_or_failed
+    trun = ctx.fn(LNS, "ThreadLine.run")
+    ttries = [t for t in walk_shallow(trun) if isinstance(t, ast.Try) and any(isinstance(y, ast.Call) and unparse(y.func) == "self._line.run" for b_ in t.body for y in ast.walk(b_))]
+    tcaught = sorted({unparse(e) for t in ttries for h in t.handlers for e in ((h.type.elts if isinstance(h.type, ast.Tuple) else [h.type]) if h.type is not None else [ast.Name("BaseException")])})
+    records = all(any(isinstance(x, ast.Assign) and any(is_self_attr(t_, "_exception") for t_ in x.targets) and isinstance(x.value, ast.Name) and x.value.id == (h.name or "") for x in ast.walk(h))
+                  for t in ttries for h in t.handlers)
+    ctx.ob("C08.R8", LNS, "ThreadLine.run", ttries[0] if ttries else trun, "every exception the items of the loader line raise, BaseExceptions included, is recorded on the line", bool(ttries) and "BaseException" in tcaught and records,
+           detail={"caught": tcaught}, stmt="loader: all BaseExceptions recorded")
 
 
 def peek_emptiness(ctx, rule, prefixes=("coba/",)):
@@ -604,6 +612,7 @@ def r9_no_blocking_receive(ctx, rule="C08.R9"):
 
 
 CONTROLS = [
+    ("the loader thread records Exceptions only", LNS, M.replace_stmt("ThreadLine.run", lambda st: isinstance(st, ast.Try), "try:\n    self._line.run()\nexcept Exception as e:\n    self._exception = e\n    self._traceback = format_tb(e.__traceback__)"), "C08.R8"),
     ("wait keys numbered by the size of the store", PMP, M.chain(M.replace_stmt("UniqueKey.__init__", M.text_has("self._n ="), "self._n = n"), M.replace_expr("MyProcessLine.start", "UniqueKey()", "UniqueKey(len(rw))")), "C08.R10"),
     ("wait keys from a counter read and then incremented", PMP, M.replace_stmt("UniqueKey.__init__", M.text_has("self._n ="), "self._n = UniqueKey.N\nUniqueKey.N += 1"), "C08.R10"),
     ("worker processes are not daemons", LNS, M.replace_expr("ProcessLine.__init__", "super().__init__(daemon=True)", "super().__init__(daemon=False)"), "C08.R11"),
